@@ -46,7 +46,8 @@ pub fn list_structure<const P0: u8, const P1: u8, const P2: u8>(mult: Option<u64
     let o2 = if P2 == ABSENT { o1 } else { obs_for(P2) };
     let written = usable(o0) as usize + usable(o1) as usize + if n == 3 { usable(o2) as usize } else { 0 };
     let last_usable = if n == 3 { usable(o2) } else { usable(o1) };
-    kani::cover!(written >= 1, "at least one observation written");
+    let all_nan_shapes = P0 == 3 && P1 == 3 && (P2 == ABSENT || P2 == 3);
+    kani::cover!(written >= 1 || all_nan_shapes, "at least one observation written (unless every position is the NaN shape)");
     let pre = b.fields.as_str().len();
     let ok = if n == 3 {
         hooks::write_metric("m", &mut b.fields, &mut b.metrics, &mut b.counts, [o0, o1, o2], Unit::None, MetricFlags::empty(), mult)
@@ -231,9 +232,17 @@ pub fn write_float_strips_only_dot_zero() {
     let f: f64 = kani::any();
     kani::assume(f.is_finite());
     stubs::reset_logs();
+    unsafe { stubs::VARIED_TOKENS = true };
     let mut b = Buf::new("}", 16);
     hooks::write_float(&mut b, f);
     let s = b.as_str();
+    if cfg!(verif_native) {
+        // native replay: the stubs are inactive, the real dtoa ran; the text must denote f and carry no ".0"
+        let text = &s[1..];
+        assert!(text.parse::<f64>().map(|g| g == f).unwrap_or(false), "text denotes the value");
+        assert!(!text.ends_with(".0"), "integral floats lose the .0");
+        return;
+    }
     unsafe { assert!(stubs::FLT_N == 1 && stubs::FLT_LOG[0].to_bits() == f.to_bits(), "the value itself is formatted") };
     kani::cover!(s.len() == 3, "stripped form");
     assert!(
@@ -242,21 +251,11 @@ pub fn write_float_strips_only_dot_zero() {
     );
 }
 
-// @check C02,C03 quick timeout=900 mem=14
-// @encodes buf::PrefixedStringBuf::push_integer with the REAL itoa::Buffer::format::<u64>
-// @bounds every u64
-// @oracle appended text is 1..=20 ASCII digits, no leading zero unless the value is 0, and parses back to the value (independent decimal parser)
-// @stubs String::push_str (no-realloc model)
-#[kani::proof]
-#[kani::unwind(22)]
-#[kani::stub(alloc::string::String::push_str, crate::stubs::string_push_str)]
-pub fn real_itoa_matches_stub_contract() {
-    let v: u64 = kani::any();
+fn real_itoa_check(v: u64) {
     let mut b = Buf::new("[", 24);
     b.push_integer(v);
     let s = b.as_str().as_bytes();
     let n = s.len() - 1;
-    kani::cover!(n == 20, "20-digit value");
     assert!(n >= 1 && n <= 20);
     assert!(n == 1 || s[1] != b'0', "no leading zero");
     let mut acc: u128 = 0;
@@ -269,13 +268,42 @@ pub fn real_itoa_matches_stub_contract() {
     assert!(acc == v as u128, "decimal text denotes the value");
 }
 
+// @check C02,C03 quick timeout=900 mem=14
+// @encodes buf::PrefixedStringBuf::push_integer with the REAL itoa::Buffer::format::<u64>
+// @bounds every u64 below 2^20 (thorough: every u64)
+// @oracle appended text is ASCII digits, no leading zero unless the value is 0, and parses back to the value (independent decimal parser)
+// @stubs String::push_str (no-realloc model)
+#[kani::proof]
+#[kani::unwind(9)]
+#[kani::stub(alloc::string::String::push_str, crate::stubs::string_push_str)]
+pub fn real_itoa_matches_stub_contract() {
+    let v: u64 = kani::any();
+    kani::assume(v < (1 << 20));
+    kani::cover!(v > 999_999, "7-digit value");
+    real_itoa_check(v)
+}
+
+// @check C02,C03 thorough timeout=7200 mem=30
+// @encodes buf::PrefixedStringBuf::push_integer with the REAL itoa::Buffer::format::<u64>
+// @bounds every u64
+// @oracle same as real_itoa_matches_stub_contract
+// @stubs String::push_str (no-realloc model)
+#[kani::proof]
+#[kani::unwind(22)]
+#[kani::stub(alloc::string::String::push_str, crate::stubs::string_push_str)]
+pub fn real_itoa_every_u64() {
+    let v: u64 = kani::any();
+    kani::cover!(v > 9_999_999_999_999_999_999, "20-digit value");
+    real_itoa_check(v)
+}
+
 // @check C02,C03 quick timeout=600
 // @encodes emf::ValueWriter::write_float with the REAL dtoa::Buffer::format_finite on concrete floats
 // @bounds concrete values 0.0, 1.0, 1.5, -2.0, 1e21, f64::MAX, 5e-324, 0.1 (dtoa on symbolic floats does not terminate in CBMC: normalisation loops)
 // @oracle exact expected JSON number text
 // @stubs String::push_str
 #[kani::proof]
-#[kani::unwind(40)]
+#[kani::unwind(66)]
 #[kani::stub(alloc::string::String::push_str, crate::stubs::string_push_str)]
 pub fn real_dtoa_concrete_values() {
     fn check(v: f64, want: &str) {
